@@ -3,6 +3,7 @@ use crate::framework::Scenario;
 pub mod c11_framing;
 pub mod c15_handshake;
 pub mod nm_family;
+pub mod sess_family;
 pub mod subs_family;
 
 pub fn all() -> Vec<Box<dyn Scenario>> {
@@ -12,6 +13,9 @@ pub fn all() -> Vec<Box<dyn Scenario>> {
     }
     for id in ["C28", "C29", "C34"] {
         v.push(Box::new(nm_family::Nm { id }));
+    }
+    for id in ["C19", "C20"] {
+        v.push(Box::new(sess_family::Sess { id }));
     }
     v
 }
